@@ -19,7 +19,11 @@ RULE = ("generated *_test.ucg files with 0..8 assertions, each true / false / ma
 RULE += (" " + 'Also: a shared non-test helper file with assertions of its own imported by some of the test files (its assertions belong to every importer); run-time build errors between assertions (the assertions evaluated before the error must be logged); the same file given two and three times in one invocation.')
 
 AKINDS = ["true", "true", "true", "false", "non-tuple", "missing-ok", "non-bool-ok", "non-string-desc", "computed-true", "computed-false",
-          "expr-true", "expr-false"]
+          "expr-true", "expr-false",
+          # the assertion sits in a module body; the module is instantiated by a statement, below a function call, or in
+          # the callback of map / filter / reduce (a table-driven test)
+          "module-direct-true", "module-direct-false", "module-in-func-true", "module-in-func-false", "module-in-map", "module-in-filter", "module-in-reduce",
+          "module-in-map-all-true", "module-in-nested-func-false"]
 
 
 HELPER_IMPORT = "let helper = import \"helper.ucg\";\n"
@@ -43,7 +47,9 @@ def gen_helper(r):
 def gen_file(r, fid, helper=None):
     """-> (text, truth: {"pass": bool, "ids_ok": [...], "ids_fail": [...], "build_error": kind|None})"""
     n = r.randint(0, 8)
-    lines = ["let mk = func (b, d) => {ok = b, desc = d};\n", "let seven = 7;\n"]
+    lines = ["let mk = func (b, d) => {ok = b, desc = d};\n", "let seven = 7;\n",
+             "let chk = module {b = true, d = \"d\"} => (r) { assert {ok = mod.b, desc = mod.d}; let r = mod.b; };\n",
+             "let runchk = func (b, d) => chk{b = b, d = d};\n", "let runchk2 = func (b, d) => [runchk(b, d)];\n"]
     ok_ids, fail_ids, malformed = [], [], 0
     if helper is not None and r.random() < 0.4:
         lines.insert(0, HELPER_IMPORT)
@@ -83,6 +89,31 @@ def gen_file(r, fid, helper=None):
         elif k == "computed-false":
             lines.append("assert mk(1 > 2, \"%s\");\n" % aid)
             fail_ids.append(aid)
+        elif k in ("module-direct-true", "module-direct-false"):
+            b = k.endswith("true")
+            lines.append("let r%d = chk{b = %s, d = \"%s\"};\n" % (i, "true" if b else "false", aid))
+            (ok_ids if b else fail_ids).append(aid)
+        elif k in ("module-in-func-true", "module-in-func-false"):
+            b = k.endswith("true")
+            lines.append("let r%d = runchk(%s, \"%s\");\n" % (i, "seven == 7" if b else "seven == 8", aid))
+            (ok_ids if b else fail_ids).append(aid)
+        elif k == "module-in-nested-func-false":
+            lines.append("let r%d = runchk2(false, \"%s\");\n" % (i, aid))
+            fail_ids.append(aid)
+        elif k in ("module-in-map", "module-in-map-all-true", "module-in-filter", "module-in-reduce"):
+            cases = []
+            for j in range(r.randint(1, 3)):
+                b = True if k == "module-in-map-all-true" else r.random() < 0.6
+                cid = "%s-c%d" % (aid, j)
+                cases.append("{b = %s, d = \"%s\"}" % ("true" if b else "false", cid))
+                (ok_ids if b else fail_ids).append(cid)
+            lst = "[" + ", ".join(cases) + "]"
+            if k == "module-in-filter":
+                lines.append("let r%d = filter(func (c) => chk{b = c.b, d = c.d}, %s);\n" % (i, lst))
+            elif k == "module-in-reduce":
+                lines.append("let r%d = reduce(func (acc, c) => acc + [runchk(c.b, c.d)], [], %s);\n" % (i, lst))
+            else:
+                lines.append("let r%d = map(func (c) => chk{b = c.b, d = c.d}, %s);\n" % (i, lst))
         elif k == "non-tuple":
             lines.append("assert seven;\n")
             malformed += 1
